@@ -84,7 +84,17 @@ def generate(rng, tier, idx):
                           'tag': 'MISC'})
         elif k == 'add-eclass' and 'eclass' in roles['manifest_dirs']:
             edits.append({'m': 'add', 'p': 'eclass/new%d.eclass' % rng.randrange(9), 'k': 'file', 'c': 'eclass', 'tag': 'DATA'})
-    return {'prop': ID, 'order_key': '%016x' % rng.getrandbits(64), 'tree': g['tree'],
+    # the update runs with another compression format than the create did (already compressed Manifests keep theirs)
+    format2 = rng.choice(['gz', 'bz2', 'xz', 'lzma']) if rng.random() < 0.25 else None
+    if format2 and rng.random() < 0.7:
+        # ... and one directory loses all its files, so that its Manifest falls below the watermark again
+        cands = [d for d in ('eclass', 'licenses', 'metadata/dtd', 'metadata/glsa', 'metadata/xml-schema')
+                 if d in roles['manifest_dirs'] and any(os.path.dirname(f) == d for f in roles['files'])]
+        if cands:
+            d = rng.choice(cands)
+            edits = [e for e in edits if not e['p'].startswith(d + '/')]
+            edits += [{'m': 'delete', 'p': f} for f in roles['files'] if os.path.dirname(f) == d]
+    return {'prop': ID, 'order_key': '%016x' % rng.getrandbits(64), 'tree': g['tree'], 'format2': format2,
             'roles': {'manifest_dirs': roles['manifest_dirs'], 'tags': roles['tags'], 'package_dirs': roles['package_dirs'],
                       'ignored_present': roles['ignored_present']},
             'profile': profile, 'ov': ov, 'api': api, 'edits': edits}
@@ -93,6 +103,8 @@ def generate(rng, tier, idx):
 def run_update(w, seam, sc, create, opi):
     prof = sc['profile']
     ov = sc.get('ov', {})
+    if not create and sc.get('format2'):
+        ov = dict(ov, format=sc['format2'])
     top = os.path.join(w.root, 'Manifest')
     with seam:
         seam.begin_op(opi)
@@ -145,6 +157,11 @@ def check_policy(w, sc, roles, what):
     stray = sorted(on_disk - set(inuse))
     if stray:
         vs.append(viol('policy.unreferenced-manifest', '%s: Manifest files not referenced from the top: %r' % (what, stray[:4]), sig='stray'))
+    odd = sorted(p for p in inuse if not (os.path.basename(p) == 'Manifest' or
+                                          (os.path.basename(p).startswith('Manifest.') and G.comp_of(p) and logical_name(os.path.basename(p)) == 'Manifest')))
+    if odd:
+        # referenced and loadable, but no tool (gemato's own upward discovery included) would look for it under that name
+        vs.append(viol('policy.manifest-name', '%s: Manifests stored under names that are not Manifest[.gz|.bz2|.lzma|.xz]: %r' % (what, odd[:4]), sig='name'))
     got_dirs = sorted(set(os.path.dirname(p) for p in inuse))
     want_dirs = sorted(roles['manifest_dirs']) if ebuildish else ['']
     want_dirs = [d for d in want_dirs if d == '' or os.path.isdir(os.path.join(w.root, d))]
@@ -234,7 +251,7 @@ def check_policy(w, sc, roles, what):
                 if (unc >= W) != (comp is not None):
                     vs.append(viol('policy.watermark', '%s: %s uncompressed size %d, watermark %d, stored %s' % (
                         what, p, unc, W, comp or 'plain'), sig='wm'))
-                elif comp is not None and comp != fmt:
+                elif comp is not None and comp != fmt and comp != sc.get('format2'):
                     vs.append(viol('policy.format', '%s: %s stored as %s, requested %s' % (what, p, comp, fmt), sig='fmt'))
         if W is not None and p == 'Manifest' and G.comp_of(p):
             vs.append(viol('policy.top-compressed', '%s: top-level compressed' % what))
